@@ -224,7 +224,9 @@ def check(acc, m: Mol, seed):
     import itertools
     total = 0.0
     tol_abs = 1e-7
-    delta = sum(2.0 / r.mn for r in refs if r.family == "schulz_zimm")
+    # Schulz-Zimm: the library sums the documented density over the integers without normalising; the reference (cdf_int) is
+    # the same sum normalised - they differ by at most the discretisation error of the total, computed from the documented law
+    delta = sum(2.0 * abs(1.0 - r.int_total()) + 1e-9 for r in refs if r.family == "schulz_zimm")
     worst = None
     # reference law over *molecules*: a molecule's probability is the sum over all unit-count tuples that build it
     groups = {}
